@@ -61,6 +61,11 @@ def len_(it, v):
         return len(v.d)
     if isinstance(v, VObj) and v.cls.find_method("__len__"):
         return it.call(it.getattr(v, "__len__"), [], {})
+    if isinstance(v, Opaque):
+        # an opaque sized object (bytes handed in from outside ...): its length is an uninterpreted non-negative function of the reference
+        n = z3.Function("py:len:" + v.sort, v.z.sort(), z3.IntSort())(v.z)
+        it.path.assume(n >= 0)
+        return wrap(n)
     raise OutOfSubset(f"len of {v!r}")
 
 
@@ -916,7 +921,10 @@ def str_method(it, s, name, args, kw):
     if name == "isdigit" and hasattr(z3, "InRe"):
         return wrap(z3.InRe(z, z3.Plus(z3.Range("0", "9"))))
     if name == "encode":
-        raise OutOfSubset("encode of symbolic string")
+        # the UTF-8 bytes of a symbolic string: an opaque value, an (injective-unaware) uninterpreted function of the string
+        from .values import ref_sort
+
+        return Opaque("Utf8Bytes", z3.Function("str:utf8", z3.StringSort(), ref_sort("Utf8Bytes"))(z), "Utf8Bytes")
     raise OutOfSubset(f"str.{name} on symbolic string")
 
 
